@@ -63,6 +63,14 @@ CHECKS = {
    technique='bounded exhaustive enumeration of driver runs with cvt:writegraph over models x acceptance configs x names modes x name alphabets (quotes, backslashes, control/UTF-8 characters); strict JSON parsing and referential validation of every record against the constraints recorded by the solver API in the same run',
    text='Every line of every exported graph must be a JSON object under a strict parser; every NL variable/constraint/objective and every delivered variable/objective must appear; each stored constraint has exactly one creation and one final-status record with consistent unused/bridged/final flags and contiguous indices; every link reference lies inside its item class; the constraints marked final equal (per type count and name multiset) the AddConstraint calls recorded by RecAPI.',
    note='The k-th delivered constraint of a type is matched to the k-th final record of that type; infinite bounds of unbounded variables are not in the model alphabet (bounded variables only).'),
+ 'C05': dict(level='exploration', engine='solrt', ref='3/C05',
+   technique='bounded exhaustive enumeration of solutions (every alternative of 10 dimensions one at a time over full alphabets, every pair over reduced alphabets, vx::Explorer deviation bound 1/2) written by the real mp::WriteSolFile(SolutionAdapter<mp::Problem>) and read by the real mp::ReadSOLFile into a recording handler; field-wise comparator of the statement; independent encoder/parser as second opinion',
+   text='Every alternative of sizes 0..3 x 0..2, absent/present vectors, 7 solve codes, objno 0..2, 0..9 options + vbtol request form, all 400 messages of <=3 lines over a 7-symbol alphabet + CR/long-line extension, 72 single-suffix configurations + suffix sets, a number lattice (quick 6.3k values; thorough all 2^20 doubles with low 44 mantissa bits zero + decade neighbours + 17-digit/integral/range-end values) in primal/dual/real-suffix roles and every non-finite value at every role, plus every pair of alternatives over reduced alphabets, is round-tripped under ASan+UBSan and compared field by field.',
+   note='Text format only (no binary writer exists); interactions of >=3 dimensions, sizes above 3/2, messages above 3 lines and numbers outside the lattice are not covered; message equality uses the stated CRLF/backspace/terminator equivalences.'),
+ 'C14': dict(level='exploration', engine='solrt', ref='3/C14',
+   technique='bounded exhaustive deviation enumeration on the real reader: 14 valid base files x {text, reference-codec binary} with 0/1/(thorough) 2 deviations of every numeric token, line, binary field, record and record length; every truncation point; suffix-header lattice; long lines; crossed with declared sizes {0, smaller, equal, larger} and 6 handlers (incl. SOLHandler_Easy via NLSolver::ReadSolution); one forked ASan+UBSan child per batch with per-input attribution; delivery-protocol monitor',
+   text='Each enumerated file/size/handler combination (173K quick, 1.45M thorough) is read by the real mp::ReadSOLFile; termination, absence of sanitizer reports, documented result code with message, no escaping exception, offered counts <= declared sizes, delivered suffix consistent with the header stated in the file, and "incomplete vector => not OK" are checked on every one.',
+   note='Not all byte strings: <=2 structured deviations of 14 shapes plus the stated lattices; binary base files come from our own codec; a table shorter than stated is accepted; bad_alloc above 256 MB counts as resource refusal; uninitialised reads are not observed (no MSan).'),
 }
 NOT_YET = {}
 def main():
